@@ -1,4 +1,4 @@
-SPECIFICATION Spec
+SPECIFICATION FairSpec
 CONSTANTS
   W = 2
   NOps = 2
@@ -11,10 +11,5 @@ CONSTANTS
   AllowFault = TRUE
   AliveCheck = TRUE
 INVARIANT ProtocolOK
-INVARIANT ClosedAtEnd
-INVARIANT NoProblemLost
-INVARIANT ZeroMeansClean
-INVARIANT AtMostOneAfterStop
-INVARIANT MaxFailuresRespected
-INVARIANT LaterPhasesSkipped
+PROPERTY Termination
 CHECK_DEADLOCK FALSE
